@@ -492,3 +492,47 @@ func TestNewAnalyzerHaving(t *testing.T) {
 		t.Fatalf("%v %v", res, err)
 	}
 }
+
+// REQUESTS.md b-c13 #1: string constants of an IN list are converted to Date when the left
+// side is a Date; other Date/String mixes are ErrUnsupported, never a silent "no match".
+func TestDateInList(t *testing.T) {
+	db := NewDB()
+	d := func(s string) Date { x, _ := ParseDate(s); return x }
+	db.AddTable("g", []string{"date", "key", "n"}, [][]any{{d("2024-01-15"), "a", uint64(1)}, {d("2024-01-16"), "b", uint64(2)}, {d("2024-01-17"), "c", uint64(3)}})
+	db.AddTable("sd", []string{"s"}, [][]any{{"2024-01-15"}})
+	for _, c := range []struct{ sql, want string }{
+		{"SELECT count() FROM g WHERE date IN ('2024-01-15', '2024-01-16')", "2"},
+		{"SELECT count() FROM g WHERE date NOT IN ('2024-01-15', '2024-01-16')", "1"},
+		{"SELECT count() FROM g WHERE date IN ('2024-01-15')", "1"},
+		{"SELECT count() FROM g WHERE date IN (toDate('2024-01-15'), toDate('2024-01-16'))", "2"},
+		{"SELECT count() FROM g WHERE date IN (toDate('2024-01-15'), '2024-01-17')", "2"},
+		{"SELECT count() FROM g WHERE (date, key) IN (('2024-01-15', 'a'), ('2024-01-16', 'zz'))", "1"},
+		{"SELECT count() FROM g WHERE (key, date) IN (('c', '2024-01-17'))", "1"},
+		{"SELECT count() FROM g WHERE (key, n) IN ('c', 3)", "1"}, {"SELECT (1, 2) IN (1, 2), (1, 2) IN ((1, 2), (3, 4)), (1, 3) IN ((1, 2))", "1,1,0"},
+		{"SELECT count() FROM g WHERE date IN (SELECT date FROM g WHERE n > 1)", "2"},
+		{"SELECT count() FROM g WHERE date >= '2024-01-16' AND toString(date) IN ('2024-01-16')", "1"},
+		{"SELECT count() FROM g WHERE key IN ('a', 'b')", "2"},
+	} {
+		res, err := db.Query(c.sql)
+		if err != nil {
+			t.Errorf("%s: %v", c.sql, err)
+			continue
+		}
+		if got := rowsString(res); got != c.want {
+			t.Errorf("%s: got %s want %s", c.sql, got, c.want)
+		}
+	}
+	if _, err := db.Query("SELECT count() FROM g WHERE date IN ('2024-01-15', 'garbage')"); !errors.Is(err, ErrExec) {
+		t.Errorf("unparsable date constant: %v", err)
+	}
+	for _, q := range []string{
+		"SELECT count() FROM g WHERE date IN (SELECT s FROM sd)",
+		"SELECT count() FROM g WHERE date IN (sd)",
+		"SELECT count() FROM sd WHERE s IN (SELECT date FROM g)",
+		"SELECT count() FROM g WHERE date IN ('2024-01-15 00:00:00')",
+	} {
+		if _, err := db.Query(q); !errors.Is(err, ErrUnsupported) {
+			t.Errorf("%s: expected ErrUnsupported, got %v", q, err)
+		}
+	}
+}
